@@ -5,6 +5,7 @@ import shutil
 import subprocess
 from vlib import hexs, unhexs, CACHE, ENV
 import gen
+import schedreplay
 
 
 def run_lines_with_tty(exe, lines, env):
@@ -134,5 +135,6 @@ def run(ck):
                        16, 16, 0, cdist, samples=[dict(tty=True, NO_COLOR=False, guard=2)], exhaustive=True, rule="the full 2 x 2 x 4 matrix; all distinct")
     finally:
         shutil.rmtree(scratch, ignore_errors=True)
-    ck.assumptions += ["RwLock, thread-locals and the file system are atomic steps of the Lean transition system; lock poisoning is modelled as ignored (as the code does); real schedules are sampled"]
-    ck.trusted.append("the transition-system model of cached_source / PlainOutputGuard (hand-written from error.rs; tied by T5 behaviourally)")
+    schedreplay.run(ck)
+    ck.assumptions += ["RwLock, thread-locals and the file system are atomic steps of the Lean transition system; lock poisoning is modelled as ignored (as the code does); the model lets a reader in while a writer waits, std's RwLock may make it wait (fewer behaviours, same safety; the replay does not release readers while a writer waits)"]
+    ck.trusted.append("the transition-system model of cached_source / PlainOutputGuard (hand-written from error.rs; tied by schedule replay on every interleaving of the two-thread configurations, and by stress runs)")
